@@ -42,6 +42,15 @@ class FlexSpec:
                 if in_block:
                     self.prologue.append(ln)
                     continue
+                if getattr(self, '_in_comment', False):
+                    # a C comment in the definitions section is copied to the output, it defines nothing
+                    if '*/' in ln:
+                        self._in_comment = False
+                    continue
+                if ln.lstrip().startswith('/*'):
+                    if '*/' not in ln:
+                        self._in_comment = True
+                    continue
                 if ln.startswith('%option'):
                     for o in ln[len('%option'):].split():
                         self.options.add(o)
